@@ -7,7 +7,9 @@ import (
 	"go/token"
 	"go/types"
 	"os"
+	"regexp"
 	"sort"
+	"strconv"
 	"strings"
 
 	"golang.org/x/tools/go/packages"
@@ -122,6 +124,8 @@ type textEdit struct {
 // over the passes so that a body copied in a later pass cannot clash with the
 // names generated for its own earlier inlinings.
 var inlineUniq int
+
+var inlTagRe = regexp.MustCompile(`\b(_inl[0-9]+(?:s[0-9]+)*)`)
 
 func normalise(mod []*packages.Package, fset *token.FileSet, known map[string]bool, prev map[string][]byte, note func(string)) map[string][]byte {
 	overlay := map[string][]byte{}
@@ -279,7 +283,7 @@ func normalise(mod []*packages.Package, fset *token.FileSet, known map[string]bo
 						}
 					}
 					if call == nil {
-						abort[fn] = true
+						abort[fn] = true; inlDebug(fn, "used other than as the callee of a direct call", fset, id.Pos())
 						return true
 					}
 					// statement position: the innermost enclosing statement that is a direct
@@ -297,7 +301,7 @@ func normalise(mod []*packages.Package, fset *token.FileSet, known map[string]bo
 						}
 					}
 					if stmt == nil {
-						abort[fn] = true
+						abort[fn] = true; inlDebug(fn, "no enclosing statement", fset, id.Pos())
 						return true
 					}
 					direct := si == i-1 // the call is an operand of the statement itself
@@ -336,20 +340,20 @@ func normalise(mod []*packages.Package, fset *token.FileSet, known map[string]bo
 						}
 					}
 					if kind == "" {
-						abort[fn] = true
+						abort[fn] = true; inlDebug(fn, "call in an unhandled statement position", fset, id.Pos())
 						return true
 					}
 					// an if statement in an else-if position cannot be prefixed
 					if ifs, ok := stmt.(*ast.IfStmt); ok && si-1 >= 0 {
 						if par, ok := stack[si-1].(*ast.IfStmt); ok && par.Else == ast.Stmt(ifs) {
-							abort[fn] = true
+							abort[fn] = true; inlDebug(fn, "call in an else-if condition", fset, id.Pos())
 							return true
 						}
 					}
 					if kind == "hoist" {
 						// single result, and everything else the statement evaluates is free of calls
 						if fn.Type().(*types.Signature).Results().Len() != 1 || !restIsPure(qinfo, stmt, call, pureFns) {
-							abort[fn] = true
+							abort[fn] = true; inlDebug(fn, "hoisting blocked: several results or impure neighbours", fset, id.Pos())
 							return true
 						}
 					}
@@ -374,12 +378,12 @@ func normalise(mod []*packages.Package, fset *token.FileSet, known map[string]bo
 						}
 					}
 					if !okParent {
-						abort[fn] = true
+						abort[fn] = true; inlDebug(fn, "statement is not a direct child of a block", fset, id.Pos())
 						return true
 					}
 					// enclosing function must not be the candidate itself (recursion handled) nor another candidate of this pass whose body we copy
 					if q != p && !crossOK[fn] {
-						abort[fn] = true
+						abort[fn] = true; inlDebug(fn, "used from another package and names unexported objects", fset, id.Pos())
 						return true
 					}
 					sc := q.Types.Scope().Innermost(call.Pos())
@@ -610,6 +614,14 @@ func normalise(mod []*packages.Package, fset *token.FileSet, known map[string]bo
 				if !ok {
 					break
 				}
+				// labels and temporaries generated by an earlier pass inside the copied body are
+				// renamed per site: two copies may land in one function, where labels must differ
+				body = inlTagRe.ReplaceAllFunc(body, func(m []byte) []byte {
+					if string(m) == tag {
+						return m // generated for this site just now
+					}
+					return append(append([]byte{}, m...), []byte("s"+strconv.Itoa(inlineUniq))...)
+				})
 				// arguments
 				var pre, bind strings.Builder
 				callerSrc := src(s.file)
@@ -930,6 +942,13 @@ func normalise(mod []*packages.Package, fset *token.FileSet, known map[string]bo
 		return nil
 	}
 	return overlay
+}
+
+// inlDebug prints why a helper is not inlined (CHFCHECK_INLINE_DEBUG=1).
+func inlDebug(fn *types.Func, why string, fset *token.FileSet, pos token.Pos) {
+	if os.Getenv("CHFCHECK_INLINE_DEBUG") != "" {
+		fmt.Fprintf(os.Stderr, "inline-debug: %s not inlined: %s (%s)\n", fn.FullName(), why, fset.Position(pos))
+	}
 }
 
 func isSelOf(fun ast.Expr, id *ast.Ident) bool {
@@ -1321,9 +1340,8 @@ func calledFunc(info *types.Info, call *ast.CallExpr) *types.Func {
 // exported, so that its text is meaningful in another package once the
 // package-level names are qualified.
 func exportedOnly(info *types.Info, pkg *types.Package, fd *ast.FuncDecl) bool {
-	if fd.Recv != nil {
-		return false // methods keep their receiver's package
-	}
+	// (a method is copied like a function: its receiver becomes a local variable of the
+	// receiver's - exported - type, selectors of exported members mean the same everywhere)
 	ok := true
 	ast.Inspect(fd, func(n ast.Node) bool {
 		id, isId := n.(*ast.Ident)
